@@ -389,3 +389,54 @@ Proof.
   destruct H1 as [H1|(b & Hb & _ & Hd)]; [discriminate|]. rewrite Nat.sub_0_r in Hb.
   exists f, b. subst d. repeat split; auto.
 Qed.
+
+(* no measurement is used twice: the walk pairs each forward measurement with at most one backward measurement and each
+   backward measurement with at most one forward measurement *)
+Lemma nth_error_NoDup_inj {X} (l : list X) i j x : NoDup l -> nth_error l i = Some x -> nth_error l j = Some x -> i = j.
+Proof.
+  intros Hnd Hi Hj. apply (proj1 (NoDup_nth_error l) Hnd); [apply nth_error_Some; congruence|congruence].
+Qed.
+Lemma NoDup_app_l {X} (l1 l2 : list X) : NoDup (l1 ++ l2) -> NoDup l1.
+Proof. induction l1 as [|a l1 IH]; simpl; intros H; [constructor|]. inversion H as [|? ? Hn Hr]; subst. constructor; [intros Hi; apply Hn, in_or_app; left; exact Hi|apply IH, Hr]. Qed.
+Lemma NoDup_app_r {X} (l1 l2 : list X) : NoDup (l1 ++ l2) -> NoDup l2.
+Proof. induction l1 as [|a l1 IH]; simpl; intros H; [exact H|]. inversion H; subst. apply IH; assumption. Qed.
+Lemma walk_injective fw bw i j i' j' : NoDup (fw ++ bw) ->
+  In (i, j) (walk (events fw bw)) -> In (i', j') (walk (events fw bw)) -> (i = i' <-> j = j').
+Proof.
+  intros Hnd H1 H2.
+  apply (walk_events_spec fw bw i j Hnd) in H1. apply (walk_events_spec fw bw i' j' Hnd) in H2.
+  destruct H1 as (tf & tb & Hf & Hb & Hlt & Hno). destruct H2 as (tf' & tb' & Hf' & Hb' & Hlt' & Hno').
+  assert (Hndf: NoDup fw) by (eapply NoDup_app_l; exact Hnd).
+  assert (Hndb: NoDup bw) by (eapply NoDup_app_r; exact Hnd).
+  assert (Itf: In tf (fw ++ bw)) by (apply in_or_app; left; eapply nth_error_In; exact Hf).
+  assert (Itf': In tf' (fw ++ bw)) by (apply in_or_app; left; eapply nth_error_In; exact Hf').
+  assert (Itb: In tb (fw ++ bw)) by (apply in_or_app; right; eapply nth_error_In; exact Hb).
+  assert (Itb': In tb' (fw ++ bw)) by (apply in_or_app; right; eapply nth_error_In; exact Hb').
+  split; intros E; subst.
+  - assert (tf = tf') by congruence. subst tf'.
+    assert (tb = tb'). { pose proof (Hno tb' Itb'). pose proof (Hno' tb Itb). lia. }
+    subst tb'. exact (nth_error_NoDup_inj bw j j' tb Hndb Hb Hb').
+  - assert (tb = tb') by congruence. subst tb'.
+    assert (tf = tf'). { pose proof (Hno tf' Itf'). pose proof (Hno' tf Itf). lia. }
+    subst tf'. exact (nth_error_NoDup_inj fw i i' tf Hndf Hf Hf').
+Qed.
+Lemma keep_in {X} (flags : list bool) (p : list X) x : In x (keep flags p) -> In x p.
+Proof.
+  unfold keep. intros H. apply in_map_iff in H. destruct H as ([f y] & E & Hin). simpl in E. subst y.
+  apply filter_In in Hin. destruct Hin as [Hin _]. eapply in_combine_r. exact Hin.
+Qed.
+Lemma merge_code_sub_walk tol verify fw bw p : NoDup (fw ++ bw) -> In p (merge_code tol verify fw bw) -> In p (walk (events fw bw)).
+Proof.
+  intros Hnd. rewrite (merge_code_is_spec tol verify fw bw Hnd). unfold merge_spec, neighbour_filter.
+  destruct verify; [apply keep_in|exact (fun H => H)].
+Qed.
+(* hence the merged dataset, with or without verify_timedeltas, uses no measurement twice and contains only adjacent pairs *)
+Lemma merge_code_sound tol verify fw bw : NoDup (fw ++ bw) ->
+  (forall i j, In (i, j) (merge_code tol verify fw bw) ->
+     exists tf tb, nth_error fw i = Some tf /\ nth_error bw j = Some tb /\ tf < tb /\ forall t, In t (fw ++ bw) -> ~ (tf < t < tb)) /\
+  (forall i j i' j', In (i, j) (merge_code tol verify fw bw) -> In (i', j') (merge_code tol verify fw bw) -> (i = i' <-> j = j')).
+Proof.
+  intros Hnd. split.
+  - intros i j H. apply (walk_events_spec fw bw i j Hnd), (merge_code_sub_walk tol verify fw bw _ Hnd H).
+  - intros i j i' j' H1 H2. apply (walk_injective fw bw i j i' j' Hnd); eapply merge_code_sub_walk; eassumption.
+Qed.
